@@ -55,6 +55,8 @@ pub trait Maker {
     fn vec_clone(&self, v: &CVec<u64>) -> CVec<u64>;
     fn arc_make(&self, v: u64) -> CArc<Blob>;
     fn arc_read(&self, a: CArc<Blob>) -> u64;
+    /// CArc -> CArcSome -> CArc inside this module (whoever made the arc)
+    fn arc_roundtrip(&self, a: CArc<Blob>) -> CArc<Blob>;
     fn boxed(&self, v: u64) -> CBox<'static, Blob>;
     fn slice_box(&self, n: u32) -> CSliceBox<'static, u64>;
     fn into_counter(self) -> Self::C;
@@ -204,6 +206,12 @@ impl Maker for MakerImp {
     }
     fn arc_read(&self, a: CArc<Blob>) -> u64 {
         a.as_ref().map(|b| b.v + b.heap.len() as u64).unwrap_or(0)
+    }
+    fn arc_roundtrip(&self, a: CArc<Blob>) -> CArc<Blob> {
+        match a.transpose() {
+            Some(s) => s.clone().transpose(),
+            None => CArc::default(),
+        }
     }
     fn boxed(&self, v: u64) -> CBox<'static, Blob> {
         CBox::from(Blob::new(mixv(self.seed, v)))
